@@ -89,8 +89,18 @@ func execBrd(o *Out, id, line string) {
 	if want, ok := kv["plain"]; ok && (err != nil || !bytes.Equal(out, unhx(want))) {
 		o.Violate("C02", fmt.Sprintf("valid stream: err=%v, output equal=%v", err, bytes.Equal(out, unhx(want))), "valid-plain", line)
 	}
-	if err == nil {
-		if outOff != int64(len(out)) {
+	if lerr == nil && err != nil {
+		o.Count("lib-accepts-dsnet-rejects")
+	}
+	if lerr == nil {
+		// libbrotlidec accepts: the stream is a prefix of `in`; find its length with a ReadByte source
+		if err != nil {
+			out = lout
+			zr0, _ := brotli.NewReader(mkSource("byte", append(append([]byte{}, in...), 0, 0, 0, 0, 0, 0, 0, 0), -1, 0, nil, nil), nil)
+			io.ReadAll(zr0)
+			inOff = min(zr0.InputOffset, int64(len(in)))
+		}
+		if err == nil && outOff != int64(len(out)) {
 			o.Violate("C11", fmt.Sprintf("brotli OutputOffset=%d after %d bytes", outOff, len(out)), "output-offset", line)
 		}
 		// exact consumption with a trailer, through ReadByte-only and Peek sources
@@ -104,6 +114,16 @@ func execBrd(o *Out, id, line string) {
 				o.Violate("C10", fmt.Sprintf("brotli through source %s: err=%v equal=%v", src, e, bytes.Equal(got, out)), "source-shape", line)
 			} else if want := append(append([]byte{}, in[min(int(inOff), len(in)):]...), tr...); src != "bufio16" && (!bytes.Equal(rest, want) || zr.InputOffset != inOff) {
 				o.Violate("C11", fmt.Sprintf("brotli through source %s left %d unread bytes (trailer %d), InputOffset %d vs %d", src, len(rest), len(tr), zr.InputOffset, inOff), "over-read", line)
+			}
+		}
+		// source shapes with nothing after the stream (the last bits of the input are the last bits read)
+		if len(in) <= 6000 {
+			for _, src := range append([]string{"byte", "byteeof"}, realKinds...) {
+				got, e, _, _ := dsnetBrotliAll(in[:min(int(inOff), len(in))], src, nil)
+				if e != nil || !bytes.Equal(got, out) {
+					o.Violate("C10", fmt.Sprintf("brotli through source %s with nothing after the stream: err=%v equal=%v", src, e, bytes.Equal(got, out)), "source-shape-at-end", line)
+					break
+				}
 			}
 		}
 		// Read-size independence
@@ -183,6 +203,51 @@ func genBrd(r *Rand, tier string, emit func(string)) {
 			e(bb.Bytes())
 		}
 	}
+	// every transform on words of every length from the static dictionary, preferring words
+	// with bytes >= 0xc0 (multi-byte UTF-8: the uppercase transforms branch on the lead byte)
+	{
+		dict := brotli.VerifStaticDict()
+		off := 0
+		for L := 4; L <= 24; L++ {
+			nw := 1 << brNDBits[L]
+			var hi []int
+			for i := 0; i < nw; i++ {
+				for _, c := range dict[off+i*L : off+(i+1)*L] {
+					if c >= 0xc0 {
+						hi = append(hi, i)
+						break
+					}
+				}
+			}
+			per := 3
+			if thorough {
+				per = 40
+			}
+			for t := 0; t < 121; t++ {
+				for q := 0; q < per; q++ {
+					idx := r.Intn(nw)
+					if q > 0 && len(hi) > 0 {
+						idx = hi[r.Intn(len(hi))]
+					}
+					word := dict[off+idx*L : off+(idx+1)*L]
+					if n := len(brotli.VerifTransformWord(word, t)); n > 0 {
+						e(dictStream(L, idx, t, n))
+					}
+				}
+			}
+			off += nw * L
+		}
+	}
+	// synthesised streams (synth_brotli.go): what the reference encoder never emits
+	ns := 6000
+	if thorough {
+		ns = 150000
+	}
+	for i := 0; i < ns; i++ {
+		b := synthBrotli(r, i)
+		valid = append(valid, b)
+		e(b)
+	}
 	nm := 4000
 	if thorough {
 		nm = 80000
@@ -216,7 +281,7 @@ func genBrd(r *Rand, tier string, emit func(string)) {
 func init() {
 	register(&Family{
 		Name: "brd",
-		Rule: "Brotli inputs: every string of <= 1 byte and a stride (quick) or all (thorough) of the 2-byte strings; libbrotlienc output at qualities 0-11 for random, run-heavy, low-entropy and English-like (static-dictionary) data up to 250 KB and the repository's testdata files; bit flips, byte overwrites, truncations and extensions of those. Each input goes through dsnet brotli.Reader and libbrotlidec; accepted streams are re-read through ReadByte-only / bufio16 / bytes.Reader sources with a trailer and with Read sizes {1}, {0,0,1,0,7}, {3,100000}. Oracle-only family (no Lean model of the Brotli format yet). Non-trivial = produced output or accepted",
+		Rule: "Brotli inputs: every string of <= 1 byte and a stride (quick) or all (thorough) of the 2-byte strings; libbrotlienc output at qualities 0-11 for random, run-heavy, low-entropy and English-like (static-dictionary) data up to 250 KB and the repository's testdata files; one-command streams that emit a static-dictionary word under each of the 121 transforms for every word length (words with bytes >= 0xc0 preferred); streams from an independent synthesiser (every WBITS/NPOSTFIX/NDIRECT, simple prefix codes incl. one-symbol codes, arbitrary ring-buffer distance codes incl. explicit codes for a repeated distance, static-dictionary references for random (length, word, transform), several meta-blocks with different codes, uncompressed and metadata meta-blocks, MLEN off by one); bit flips, byte overwrites, truncations and extensions of all of those. Each input goes through dsnet brotli.Reader and libbrotlidec; accepted streams are re-read through ReadByte-only / bufio16 / bytes.Reader sources with a trailer and with Read sizes {1}, {0,0,1,0,7}, {3,100000}. Oracle-only family (no Lean model of the Brotli format yet). Non-trivial = produced output or accepted",
 		Gen:  genBrd,
 		Exec: execBrd,
 	})
